@@ -15,6 +15,7 @@ import (
 	"github.com/btcsuite/btcd/mempool"
 	"github.com/btcsuite/btcd/wire"
 	"github.com/btcsuite/btcutil"
+	"github.com/keep-network/keep-core/internal/testutils"
 	"github.com/keep-network/keep-core/internal/verifkit"
 	"github.com/keep-network/keep-core/pkg/bitcoin"
 	"github.com/keep-network/keep-core/pkg/chain"
@@ -45,6 +46,33 @@ func (c *c30Btc) GetTransaction(h bitcoin.Hash) (*bitcoin.Transaction, error) {
 
 func (c *c30Btc) EstimateSatPerVByteFee(uint32) (int64, error) { return c.rate, nil }
 
+func (c *c30Btc) GetTransactionConfirmations(h bitcoin.Hash) (uint, error) {
+	if _, ok := c.txs[h]; !ok {
+		return 0, fmt.Errorf("c30: transaction not found")
+	}
+	return tbtc.DepositSweepRequiredFundingTxConfirmations + 3, nil
+}
+
+// fundMany records one previous transaction with the given outputs.
+func (c *c30Btc) fundMany(scripts [][]byte, values []int64) bitcoin.Hash {
+	c.counter++
+	var prev bitcoin.Hash
+	binary.LittleEndian.PutUint32(prev[:], c.counter)
+	prev[31] = 0x31
+	tx := &bitcoin.Transaction{
+		Version: 1,
+		Inputs: []*bitcoin.TransactionInput{{
+			Outpoint: &bitcoin.TransactionOutpoint{TransactionHash: prev, OutputIndex: c.counter}, Sequence: 0xffffffff,
+		}},
+	}
+	for i := range scripts {
+		tx.Outputs = append(tx.Outputs, &bitcoin.TransactionOutput{Value: values[i], PublicKeyScript: scripts[i]})
+	}
+	h := tx.Hash()
+	c.txs[h] = tx
+	return h
+}
+
 func (c *c30Btc) fund(script []byte, value int64) *bitcoin.UnspentTransactionOutput {
 	c.counter++
 	var prev bitcoin.Hash
@@ -62,8 +90,57 @@ func (c *c30Btc) fund(script []byte, value int64) *bitcoin.UnspentTransactionOut
 	return &bitcoin.UnspentTransactionOutput{Outpoint: &bitcoin.TransactionOutpoint{TransactionHash: h, OutputIndex: 0}, Value: value}
 }
 
+type c30Op struct {
+	hash  bitcoin.Hash
+	index uint32
+}
+
 type c30PgChain struct {
 	tbtcpg.Chain
+	events      []*tbtc.DepositRevealedEvent
+	deposits    map[c30Op]*tbtc.DepositChainRequest
+	redemptions map[string]*tbtc.RedemptionRequest
+}
+
+func (c *c30PgChain) PastDepositRevealedEvents(f *tbtc.DepositRevealedEventFilter) ([]*tbtc.DepositRevealedEvent, error) {
+	var out []*tbtc.DepositRevealedEvent
+	for _, e := range c.events {
+		if f != nil {
+			if e.BlockNumber < f.StartBlock || (f.EndBlock != nil && e.BlockNumber > *f.EndBlock) {
+				continue
+			}
+			if len(f.WalletPublicKeyHash) > 0 {
+				match := false
+				for _, w := range f.WalletPublicKeyHash {
+					match = match || w == e.WalletPublicKeyHash
+				}
+				if !match {
+					continue
+				}
+			}
+		}
+		out = append(out, e)
+	}
+	return out, nil
+}
+
+func (c *c30PgChain) GetDepositRequest(h bitcoin.Hash, index uint32) (*tbtc.DepositChainRequest, bool, error) {
+	r, ok := c.deposits[c30Op{h, index}]
+	return r, ok, nil
+}
+
+func (c *c30PgChain) ValidateDepositSweepProposal([20]byte, *tbtc.DepositSweepProposal, []struct {
+	*tbtc.Deposit
+	FundingTx *bitcoin.Transaction
+}) error {
+	return nil
+}
+
+func (c *c30PgChain) ValidateRedemptionProposal([20]byte, *tbtc.RedemptionProposal) error { return nil }
+
+func (c *c30PgChain) GetPendingRedemptionRequest(_ [20]byte, script bitcoin.Script) (*tbtc.RedemptionRequest, bool, error) {
+	r, ok := c.redemptions[string(script)]
+	return r, ok, nil
 }
 
 func (c *c30PgChain) GetDepositParameters() (uint64, uint64, uint64, uint32, error) {
@@ -193,7 +270,7 @@ func c30SigMode(t *rapid.T) string {
 	return rapid.SampledFrom([]string{"max", "max", "mixed", "any"}).Draw(t, "signatureMode")
 }
 
-func c30Deposit(t *rapid.T, btc *c30Btc, pkh []byte, witness bool, extra bool) (*tbtc.Deposit, []byte) {
+func c30DepositParams(t *rapid.T, pkh []byte, extra bool) (*tbtc.Deposit, []byte) {
 	d := &tbtc.Deposit{Depositor: chain.Address("0x" + hex.EncodeToString(c30Bytes(t, 20, "depositor")))}
 	copy(d.WalletPublicKeyHash[:], pkh)
 	copy(d.RefundPublicKeyHash[:], c30Bytes(t, 20, "refund"))
@@ -202,12 +279,18 @@ func c30Deposit(t *rapid.T, btc *c30Btc, pkh []byte, witness bool, extra bool) (
 	if extra {
 		var e [32]byte
 		copy(e[:], c30Bytes(t, 32, "extra"))
+		e[0] |= 1
 		d.ExtraData = &e
 	}
 	script, err := d.Script()
 	if err != nil {
 		t.Fatalf("deposit script: %v", err)
 	}
+	return d, script
+}
+
+func c30Deposit(t *rapid.T, btc *c30Btc, pkh []byte, witness bool, extra bool) (*tbtc.Deposit, []byte) {
+	d, script := c30DepositParams(t, pkh, extra)
 	if witness {
 		h := sha256.Sum256(script)
 		d.Utxo = btc.fund(c30P2WSH(h[:]), 1_000_000)
@@ -471,6 +554,200 @@ func TestVerif_C30_RedemptionFee(t *testing.T) {
 		}
 		nt := withChange && sig.minus1+sig.shorter == 0
 		st.Case(nt, fmt.Sprintf("requests=%v change=%v rate=%d sigs=%s fee=%d real=%d", kinds, withChange, rate, mode, fee, real),
+			fmt.Sprintf("change:%v", withChange), fmt.Sprintf("script-kinds:%d", len(kinds)), "signatures:"+mode, fmt.Sprintf("exact:%v", fee == rate*real))
+	})
+}
+
+// The fee a coordinator really proposes: tbtcpg's ProposeDepositsSweep with
+// the fee left to be estimated (fee argument 0), for deposit sets in which
+// several deposits are outputs of the same funding transaction, against the
+// transaction the wallet validates, assembles and signs for THAT proposal.
+func TestVerif_C30_ProposedSweepFee(t *testing.T) {
+	st := verifkit.New("C30", "TestVerif_C30_ProposedSweepFee")
+	defer st.Flush()
+	rapid.Check(t, func(t *rapid.T) {
+		rate := int64(rapid.IntRange(1, 600).Draw(t, "satPerVByte"))
+		btc := c30NewBtc(rate)
+		host := &c30PgChain{deposits: map[c30Op]*tbtc.DepositChainRequest{}}
+		key := c30Key(t)
+		pub := (*ecdsa.PublicKey)(&key.PublicKey)
+		pkh := btcutil.Hash160(key.PubKey().SerializeCompressed())
+		var pkh20 [20]byte
+		copy(pkh20[:], pkh)
+
+		// funding transactions: 1..4 deposit outputs each (a depositor
+		// batching deposits), optionally a change output in between
+		total := rapid.IntRange(1, 20).Draw(t, "deposits")
+		if rapid.Bool().Draw(t, "fewDeposits") {
+			total = rapid.IntRange(1, 6).Draw(t, "depositsFew")
+		}
+		sharedReveal := rapid.Bool().Draw(t, "sharedRevealBlock")
+		var refs []*tbtcpg.DepositReference
+		fundingTxs, maxPerTx, withExtra := 0, 0, 0
+		for left := total; left > 0; {
+			per := rapid.IntRange(1, min(left, 4)).Draw(t, "depositsInFundingTx")
+			left -= per
+			fundingTxs++
+			maxPerTx = max(maxPerTx, per)
+			var scripts [][]byte
+			var values []int64
+			var params []*tbtc.Deposit
+			var indexes []uint32
+			for j := 0; j < per; j++ {
+				if rapid.IntRange(0, 3).Draw(t, "changeOutputBefore") == 0 {
+					scripts = append(scripts, c30P2WPKH(c30Bytes(t, 20, "depositorChange")))
+					values = append(values, 12_345)
+				}
+				extra := rapid.IntRange(0, 3).Draw(t, "extraData") > 0
+				if extra {
+					withExtra++
+				}
+				d, script := c30DepositParams(t, pkh, extra)
+				h := sha256.Sum256(script)
+				indexes = append(indexes, uint32(len(scripts)))
+				scripts = append(scripts, c30P2WSH(h[:]))
+				values = append(values, rapid.Int64Range(100_000, 500_000_000).Draw(t, "depositValue"))
+				params = append(params, d)
+			}
+			fundingHash := btc.fundMany(scripts, values)
+			for j, d := range params {
+				reveal := uint64(1000)
+				if !sharedReveal {
+					reveal = uint64(1000 + len(refs)*3)
+				}
+				host.events = append(host.events, &tbtc.DepositRevealedEvent{
+					FundingTxHash: fundingHash, FundingOutputIndex: indexes[j], Depositor: d.Depositor,
+					Amount: uint64(values[indexes[j]]), BlindingFactor: d.BlindingFactor, WalletPublicKeyHash: pkh20,
+					RefundPublicKeyHash: d.RefundPublicKeyHash, RefundLocktime: d.RefundLocktime, BlockNumber: reveal,
+				})
+				host.deposits[c30Op{fundingHash, indexes[j]}] = &tbtc.DepositChainRequest{
+					Depositor: d.Depositor, Amount: uint64(values[indexes[j]]), ExtraData: d.ExtraData,
+				}
+				refs = append(refs, &tbtcpg.DepositReference{FundingTxHash: fundingHash, FundingOutputIndex: indexes[j], RevealBlock: reveal})
+			}
+		}
+		refs = rapid.Permutation(refs).Draw(t, "proposalOrder")
+
+		proposal, err := tbtcpg.NewDepositSweepTask(host, btc).ProposeDepositsSweep(&testutils.MockLogger{}, pkh20, refs, 0)
+		if err != nil {
+			t.Fatalf("ProposeDepositsSweep: %v", err)
+		}
+		if len(proposal.DepositsKeys) != len(refs) {
+			t.Fatalf("proposal sweeps %d deposits, %d were given", len(proposal.DepositsKeys), len(refs))
+		}
+		for i, k := range proposal.DepositsKeys {
+			if k.FundingTxHash != refs[i].FundingTxHash || k.FundingOutputIndex != refs[i].FundingOutputIndex {
+				t.Fatalf("proposal deposit %d is not the given one", i)
+			}
+		}
+		fee := proposal.SweepTxFee.Int64()
+
+		// the wallet's side: validate the proposal, assemble, sign
+		deposits, err := tbtc.ValidateDepositSweepProposal(&testutils.MockLogger{}, pkh20, proposal, tbtc.DepositSweepRequiredFundingTxConfirmations, host, btc)
+		if err != nil {
+			t.Fatalf("wallet-side validation: %v", err)
+		}
+		withMain := rapid.IntRange(0, 3).Draw(t, "hasMainUtxo") > 0
+		var main *bitcoin.UnspentTransactionOutput
+		if withMain {
+			main = btc.fund(c30P2WPKH(pkh), 90_000_000)
+		}
+		builder, err := tbtc.C30AssembleDepositSweep(btc, pub, main, deposits, fee)
+		if err != nil {
+			t.Fatalf("assemble: %v", err)
+		}
+		mode := c30SigMode(t)
+		tx, sig := c30SignAll(t, builder, key, mode)
+		if len(tx.Inputs) != len(refs)+map[bool]int{true: 1, false: 0}[withMain] {
+			t.Fatalf("transaction has %d inputs for %d deposits", len(tx.Inputs), len(refs))
+		}
+		real := c30VirtualSize(tx)
+		if fee < rate*real {
+			t.Fatalf("proposal for %d deposits from %d funding transactions (main UTXO %v): proposed fee %d at %d sat/vbyte = %d vbytes, the signed transaction has %d vbytes and needs %d",
+				len(refs), fundingTxs, withMain, fee, rate, fee/rate, real, rate*real)
+		}
+		nt := maxPerTx >= 2 && sig.minus1+sig.shorter == 0
+		st.Case(nt, fmt.Sprintf("deposits=%d funding-txs=%d max-per-tx=%d extra=%d main=%v shared-reveal=%v rate=%d sigs=%s fee=%d real=%d", len(refs), fundingTxs, maxPerTx, withExtra, withMain, sharedReveal, rate, mode, fee, real),
+			fmt.Sprintf("max-deposits-per-funding-tx:%d", maxPerTx), fmt.Sprintf("main-utxo:%v", withMain), fmt.Sprintf("shared-reveal-block:%v", sharedReveal),
+			"signatures:"+mode, fmt.Sprintf("exact:%v", fee == rate*real))
+	})
+}
+
+// Same for redemptions: tbtcpg's ProposeRedemption with an estimated fee
+// against the transaction the wallet assembles for the proposal.
+func TestVerif_C30_ProposedRedemptionFee(t *testing.T) {
+	st := verifkit.New("C30", "TestVerif_C30_ProposedRedemptionFee")
+	defer st.Flush()
+	rapid.Check(t, func(t *rapid.T) {
+		rate := int64(rapid.IntRange(1, 600).Draw(t, "satPerVByte"))
+		btc := c30NewBtc(rate)
+		host := &c30PgChain{redemptions: map[string]*tbtc.RedemptionRequest{}}
+		key := c30Key(t)
+		pub := (*ecdsa.PublicKey)(&key.PublicKey)
+		pkh := btcutil.Hash160(key.PubKey().SerializeCompressed())
+		var pkh20 [20]byte
+		copy(pkh20[:], pkh)
+		n := rapid.IntRange(1, 20).Draw(t, "requests")
+		scripts := make([]bitcoin.Script, 0, n)
+		kinds := map[string]int{}
+		var redeemable int64
+		sharedHash := c30Bytes(t, 32, "sharedHash")
+		for len(scripts) < n {
+			kind := rapid.SampledFrom([]string{"p2pkh", "p2wpkh", "p2sh", "p2wsh"}).Draw(t, "redeemerScript")
+			// the same 20-byte hash behind different script types is a
+			// different redeemer script
+			h := c30Bytes(t, 32, "hash")
+			if rapid.IntRange(0, 3).Draw(t, "reuseHash") == 0 {
+				h = sharedHash
+			}
+			var script []byte
+			switch kind {
+			case "p2pkh":
+				script = c30P2PKH(h)
+			case "p2wpkh":
+				script = c30P2WPKH(h)
+			case "p2sh":
+				script = c30P2SH(h)
+			default:
+				script = c30P2WSH(h)
+			}
+			if _, dup := host.redemptions[string(script)]; dup {
+				continue
+			}
+			kinds[kind]++
+			scripts = append(scripts, script)
+			host.redemptions[string(script)] = &tbtc.RedemptionRequest{RedeemerOutputScript: script, RequestedAmount: 10_000_000, TreasuryFee: 5_000, TxMaxFee: 1_000_000}
+			redeemable += 10_000_000 - 5_000
+		}
+		proposal, err := tbtcpg.NewRedemptionTask(host, btc).ProposeRedemption(&testutils.MockLogger{}, pkh20, scripts, 0)
+		if err != nil {
+			t.Fatalf("ProposeRedemption: %v", err)
+		}
+		if len(proposal.RedeemersOutputScripts) != n {
+			t.Fatalf("proposal has %d redeemer scripts, %d were given", len(proposal.RedeemersOutputScripts), n)
+		}
+		fee := proposal.RedemptionTxFee.Int64()
+		requests, err := tbtc.ValidateRedemptionProposal(&testutils.MockLogger{}, pkh20, proposal, host)
+		if err != nil {
+			t.Fatalf("wallet-side validation: %v", err)
+		}
+		withChange := rapid.IntRange(0, 3).Draw(t, "hasChange") > 0
+		mainValue := redeemable
+		if withChange {
+			mainValue += rapid.Int64Range(1, 1_000_000_000).Draw(t, "change")
+		}
+		main := btc.fund(c30P2WPKH(pkh), mainValue)
+		builder, err := tbtc.C30AssembleRedemption(btc, pub, main, requests, fee, tbtc.RedemptionChangeFirst)
+		if err != nil {
+			t.Fatalf("assemble: %v", err)
+		}
+		mode := c30SigMode(t)
+		tx, sig := c30SignAll(t, builder, key, mode)
+		real := c30VirtualSize(tx)
+		if fee < rate*real {
+			t.Fatalf("redemption proposal for %v (change %v): proposed fee %d at %d sat/vbyte, the signed transaction has %d vbytes and needs %d", kinds, withChange, fee, rate, real, rate*real)
+		}
+		st.Case(withChange && sig.minus1+sig.shorter == 0, fmt.Sprintf("requests=%v change=%v rate=%d sigs=%s fee=%d real=%d", kinds, withChange, rate, mode, fee, real),
 			fmt.Sprintf("change:%v", withChange), fmt.Sprintf("script-kinds:%d", len(kinds)), "signatures:"+mode, fmt.Sprintf("exact:%v", fee == rate*real))
 	})
 }
